@@ -8,11 +8,13 @@
      node      kind!present!equal!rows!nsegs!cols
                kind: F B R M G S0 S1 C D E X ; rows hex ; nsegs decimal
                cols: col tokens separated by ',' or "_"
-     col       class:flags:styp:dtyp:scodec:dcodec:bloomcodec:numbytes:filtersize:stats:dpagetype:denc
+     col       class:flags:styp:dtyp:scodec:dcodec:bloomcodec:numbytes:filtersize:stats:dpagetype:denc:dictmax:dictsize:dictfilter
                class: F B O, prefixed by one R per range view
-               flags: 14 chars 0/1 (src_encrypted dst_enc_key dst_filter bloom_offset bloom_length
+               flags: 16 chars 0/1 (src_encrypted dst_enc_key dst_filter bloom_offset bloom_length
                       header_ok split_block xxhash uncompressed column_index offset_index dst_dict
-                      src_page_header_stats dst_page_header_stats)
+                      src_page_header_stats dst_page_header_stats src_dict_page src_dict_header_ok)
+               dictmax: dst DictionaryMaxBytes ; dictsize: uncompressed size in the source dictionary page header
+               dictfilter: dst filter size for the number of values in the source dictionary page header
                bloomcodec: N or hex ; stats: pt.enc/pt.enc/... or "_" ; page types are thrift codes 0..3 *)
 open Conv
 open Model
@@ -28,8 +30,8 @@ let rec class_of (s : Stdlib.String.t) : chunk_class =
 
 let col_of (s : Stdlib.String.t) : col =
   match String.split_on_char ':' s with
-  | [cls; fl; st; dt; sc; dc; bc; nb; fs; stats; dpt; de] ->
-      if String.length fl <> 14 then failwith "flags";
+  | [cls; fl; st; dt; sc; dc; bc; nb; fs; stats; dpt; de; dmax; dsize; dfs] ->
+      if String.length fl <> 16 then failwith "flags";
       let b i = fl.[i] = '1' in
       { c_class = class_of cls; c_src_encrypted = b 0; c_dst_enc_key = b 1;
         c_src_type = n_of_hex st; c_dst_type = n_of_hex dt;
@@ -38,14 +40,17 @@ let col_of (s : Stdlib.String.t) : col =
         c_dst_bloom_codec = opt_of_tok n_of_hex bc;
         c_src_bloom_header_ok = b 5; c_src_bloom_split_block = b 6; c_src_bloom_xxhash = b 7;
         c_src_bloom_uncompressed = b 8;
-        c_src_bloom_num_bytes = n_of_hex nb; c_dst_filter_size = n_of_hex fs;
+        c_src_bloom_num_bytes = n_of_hex nb; c_dst_filter_size = n_of_hex fs; c_dst_filter_size_dict = n_of_hex dfs;
         c_src_column_index = b 9; c_src_offset_index = b 10;
         c_src_encoding_stats =
           List.map (fun t -> match String.split_on_char '.' t with
                       | [p; e] -> (page_type_of p, n_of_hex e)
                       | _ -> failwith "stat") (split_on '/' stats);
         c_dst_page_type = page_type_of dpt; c_dst_encoding = n_of_hex de;
-        c_dst_dict = b 11; c_src_page_header_stats = b 12; c_dst_page_header_stats = b 13 }
+        c_dst_dict = b 11;
+        c_dst_dict_max = n_of_hex dmax; c_src_dict_page = b 14; c_src_dict_header_ok = b 15;
+        c_src_dict_uncompressed = n_of_hex dsize;
+        c_src_page_header_stats = b 12; c_dst_page_header_stats = b 13 }
   | _ -> failwith ("col " ^ s)
 
 let kind_of s = match s with
@@ -107,6 +112,14 @@ let () =
         Printf.sprintf "%s %d %d" (tok_of_list action_tok acts)
           (int_of_nat (copy_count acts)) (int_of_nat (reencode_count acts))
     | _ -> failwith "c11.plan args");
+  register "c11.groups" (function
+    | [sw; w; t; fuel; written] ->
+        let wr = writer_of w in
+        let acts = plan (nat_of_int (int_of_string fuel)) (switches_of sw) wr (tree_of t) in
+        (match out_row_groups wr (n_of_hex written) acts with
+         | Some l -> tok_of_list hex_of_n l
+         | None -> "INEXACT")
+    | _ -> failwith "c11.groups args");
   register "c11.column" (function
     | [c] -> tok_of_bool (column_copyable (col_of c))
     | _ -> failwith "c11.column args");
